@@ -2,6 +2,7 @@ package chunkparser
 
 import (
 	"encoding/binary"
+	"fmt"
 	"io"
 )
 
@@ -56,6 +57,12 @@ func (p *MP4ChunkParser) Parse() error {
 		}
 		size := binary.BigEndian.Uint32(p.buf[nextBoxStart : nextBoxStart+4])
 		currBox = string(p.buf[nextBoxStart+4 : nextBoxStart+8])
+		if size < 8 {
+			return fmt.Errorf("box %q at offset %d has invalid size %d", currBox, nextBoxStart, size)
+		}
+		if nextBoxStart+size < nextBoxStart {
+			return fmt.Errorf("box %q at offset %d with size %d exceeds 32-bit offset range", currBox, nextBoxStart, size)
+		}
 		nextBoxStart += size
 		switch currBox {
 		case "moov":
